@@ -17,8 +17,8 @@ from props import c18_util as U
 PROP = "C18"
 LEVEL = "proof"
 GEN_UNITS = []
-COQ_TARGETS = ["Props/C18.vo", "Props/C18Perm.vo", "Props/C18Rows.vo", "Model/C18Cmp.vo", "Model/Harness.vo"]
-THEOREM_FILES = ["Props/C18.v", "Props/C18Perm.v", "Props/C18Rows.v"]
+COQ_TARGETS = ["Props/C18.vo", "Props/C18Perm.vo", "Props/C18Rows.vo", "Props/C18W4.vo", "Props/C18W4H.vo", "Props/C18W4O.vo", "Props/C18W4S.vo", "Model/C18Cmp.vo", "Model/Harness.vo"]
+THEOREM_FILES = ["Props/C18.v", "Props/C18Perm.v", "Props/C18Rows.v", "Props/C18W4.v", "Props/C18W4H.v", "Props/C18W4O.v", "Props/C18W4S.v"]
 COQ_IMPORTS = ("From Coq Require Import List ZArith Bool QArith Qcanon.\n"
                "From PV Require Import Base.Index Np.Array Model.Sparse Model.Repr Model.Harness Model.C18Cmp.\n")
 SHARD = 12          # quick tier: <= 16 shards = one round on 16 cores; ~1.3 s of library loading per shard
@@ -43,10 +43,17 @@ PAIRS = {
 # mode loop for any function from the Gram matrix to the applied matrix), print for cp_apr_pdnr / cp_apr_pqnr / gcp (transliterated
 # drivers, Proofs/C18PrintRows.v; pdnr / pqnr under the contract that the in-place normalisation of the printed log-likelihood is
 # invisible to redistribute(0) / the final normalize on normalised states). The eigen-solvers stay oracles.
+# wave 4 (Props/C18W4.v, Props/C18W4H.v): repr for cp_apr_mu on the C11 numerical model (sparse Pi / Phi branch = dense branch through
+# the whole loop) + the print driver bridged to that model; Tucker-ALS's upd_perm / A_perm contracts discharged on dense holders;
+# relabel for the transliterated hosvd driver (rank rule, IndexError path, sequential or not) on dense holders.
+# Still correspondence-only: repr for cp_apr_pdnr / cp_apr_pqnr (row solvers' numerics are oracles in the C11 rows model), repr.hosvd and
+# repr.gcp (memory-layout pairs only: both reject sparse data; layout is not part of any model), every seed.* (numpy's generator and the
+# absence of further draws inside the algorithms are not modelled).
 PROVED = {("cp_als", "repr"), ("cp_als", "print"), ("cp_als", "scale"), ("cp_als", "relabel"), ("hosvd", "scale"), ("tucker_als", "scale"),
           ("hosvd", "print"), ("tucker_als", "print"), ("cp_apr_mu", "print"), ("tucker_als", "repr"),
           ("hosvd", "relabel"), ("tucker_als", "relabel"),
-          ("cp_apr_pdnr", "print"), ("cp_apr_pqnr", "print"), ("gcp", "print")}
+          ("cp_apr_pdnr", "print"), ("cp_apr_pqnr", "print"), ("gcp", "print"),
+          ("cp_apr_mu", "repr")}        # wave 4: Props/C18W4.v, sparse Pi / Phi branch = dense branch through the whole MU loop (C11 model)
 CORRESPONDENCE_ONLY = [f"{p}.{a}" for p, algs in PAIRS.items() for a in algs if (a, p) not in PROVED]
 
 RULE = ("metamorphic pairs of real runs, maxiters <= 5, <= 36 cells, ranks 1-2: repr = dense vs sparse holder of the same integer "
@@ -60,14 +67,18 @@ RULE = ("metamorphic pairs of real runs, maxiters <= 5, <= 36 cells, ranks 1-2: 
         "thresholds (0,2),(2,5),(0,10), also with the string start 'nvecs'; seed = same np.random.seed twice "
         "(all with a random start; hosvd has none), plus STRING vs OBJECT start: the start run 1 drew ('random', seeded) or computed "
         "('nvecs') and returned is handed to run 2 as a ktensor / list (tucker_als: unused first-mode slot filled arbitrarily); "
-        "scale = X vs cX, c in {2, 8, 1/4} and FAR scales c in {2^-24, 2^-17, 2^24, 2^-20, 2^-30} for cp_als, hosvd, tucker_als only "
+        "scale = X vs cX, c in {2, 8, 1/4} and FAR scales c in {2^-24, 2^-17, 2^24, 2^-20, 2^-30, 2^30} for cp_als, hosvd, tucker_als only "
         "(cp_apr and gcp losses are not scale-equivariant: skipped), the far ones half on dyadic data with a graded multilinear "
         "spectrum 1, 2^-g, 2^-2g (g 4..7) and, for hosvd, automatic ranks with a tight tolerance (1e-3..1e-6): chosen ranks (core "
         "shape) compared explicitly, model compared at 1e-8 of the larger-magnitude side; relabel = X vs X.permute(p) with guess/ranks "
         "permuted and "
         "dimorder' = [p.index(m) for m in dimorder] for cp_als, hosvd, tucker_als only (cp_apr and gcp have no mode-order "
         "parameter and sweep modes 0..N-1, so a relabelled run is a different algorithm: skipped); option corners for repr / relabel / "
-        "scale pairs: maxiters 1/0/2/5 with printing switched on identically on both sides (3, 7, 100). Data: integer "
+        "scale pairs: maxiters 1/0/2/5 with printing switched on identically on both sides (3, 7, 100); wave 4: relabel.cp_als "
+        "(+ a print / a holder pair) with optdims a STRICT SUBSET of the modes (>= 2 optimised modes, N >= 3), an explicit dimorder "
+        "whose restriction to optdims is descending or shuffled, >= 2 sweeps, under a relabelling that reverses the relative position "
+        "of two optimised modes (a filter of dimorder that sorts it shows up on one side only); cp_apr's second verbosity setting "
+        "printinneritn (mu / pdnr / pqnr): pairs of (printitn, printinneritn) from (0,0),(0,1),(1,1),(1,0),(1,3),(2,1),(0,2),(5,2). Data: integer "
         "low-rank-plus-noise (counts for cp_apr), with zero entries, and for cp_apr an optional all-zero slice; every mode-n "
         "unfolding has exact rank >= the requested rank (checked with Fractions in the generator), Tucker ranks satisfy "
         "r_n <= prod of the others, start columns are not nearly parallel (exact Gram-determinant test) - so the sub-problems are "
@@ -386,7 +397,7 @@ def _nvecs_ok(b):
     return True
 
 
-FAR_SCALES = [2.0 ** -24, 2.0 ** -17, 2.0 ** 24, 2.0 ** -20, 2.0 ** -30]
+FAR_SCALES = [2.0 ** -24, 2.0 ** -17, 2.0 ** 24, 2.0 ** -20, 2.0 ** -30, 2.0 ** 30]      # wave 4: + 2^30 (hosvd quick: each once)
 
 
 def _scaled(b, c):
@@ -580,6 +591,59 @@ def gen_cases(rng, tier):
             if alg == "gcp" and j % 2 == 1:
                 t["init_as"] = "list"
             cases.append(_mk("repr", alg, b, t, extra={"order": "layout", "zero_slice": False, "layout": t["layout"]}))
+    # 9. (wave 4; generated LAST so that the streams of sections 1-8 are unchanged) relabel with a STRICT SUBSET of the modes
+    #     optimised (optdims) and an explicit sweep order: the order in which the optimised
+    #     modes are swept is the restriction of dimorder to optdims - whatever filters dimorder must keep the user's sequence (a set
+    #     routine that sorts it is invisible while optdims is complete or the restriction happens to be ascending). N >= 3, >= 2
+    #     optimised modes, >= 2 sweeps, restriction descending in the base run for two of three cases, and a relabelling that reverses
+    #     the relative position of two optimised modes (so at most one side of the pair can be ascending)
+    for j in range(cnt(4, 6)):
+        shape = list(rng.choice(SHAPES4 if j % 2 == 1 else SHAPES3[:-1]))     # every second case 4-way
+        b = base_run(rng, "cp_als", shape=shape)
+        N = len(shape)
+        od = sorted(rng.sample(range(N), rng.randint(2, N - 1)))
+        rest = [m for m in range(N) if m not in od]
+        seq_od = list(od)
+        if j % 3 != 2:
+            seq_od.reverse()
+        else:
+            rng.shuffle(seq_od)
+        dm = list(seq_od)
+        for m in rest:                                           # the fixed modes anywhere in the list (they are filtered out)
+            dm.insert(rng.randrange(len(dm) + 1), m)
+        b["opts"].update({"optdims": od, "dimorder": dm, "maxiters": rng.choice([2, 3, 4]), "stoptol": 0.0})
+        ps = [p for p in U.perms(N) if any((p.index(x) < p.index(y)) != (x < y) for x in od for y in od if x < y)]
+        cyc = [p for p in ps if [p[k] for k in p] != list(range(N))]           # non-involutive relabellings (p o p <> id) preferred:
+        if cyc and j % 4 != 0:                                                # p and its inverse differ, so a p / p^-1 mix-up shows too
+            ps = cyc
+        p = ps[rng.randrange(len(ps))]
+        cases.append(_mk("relabel", "cp_als", b, relabel(b, p), perm=p, extra={"optdims_strict": True}))
+        if j % 2 == 0:                                           # the same option corner for a print / a holder pair
+            t = dict(b)
+            t["printitn"] = 1
+            cases.append(_mk("print", "cp_als", b, t, extra={"optdims_strict": True}))
+        else:
+            cases.append(_mk("repr", "cp_als", b, to_sparse(rng, b, "random"), extra={"order": "random", "zero_slice": False,
+                                                                                      "optdims_strict": True}))
+    # 10. (wave 4, generated after section 9) cp_apr's SECOND verbosity setting, printinneritn (inner status lines; in PDNR / PQNR it also
+    #     switches the line-search warnings on: dispLineWarn = printinneritn > 0): pairs of (printitn, printinneritn) incl. inner printing
+    #     with the outer one off, on runs of several outer / inner iterations with structural zeros in the start
+    ipairs = [((0, 0), (0, 1)), ((0, 0), (1, 1)), ((1, 0), (1, 3)), ((2, 1), (0, 2)), ((0, 0), (5, 2))]
+    for alg, nq, n in (("cp_apr_mu", 2, 3), ("cp_apr_pdnr", 2, 3), ("cp_apr_pqnr", 1, 2)):
+        for j in range(cnt(nq, n)):
+            b = base_run(rng, alg, zero_init=True, rank=2)
+            if j % 2 == 1:
+                b = to_sparse(rng, b, "random")
+            b["opts"]["maxiters"] = {"cp_apr_mu": 4, "cp_apr_pdnr": 3, "cp_apr_pqnr": 2}[alg]
+            b["opts"]["stoptol"] = 1e-6
+            if alg == "cp_apr_mu":
+                b["opts"]["maxinneriters"] = 5
+            for (p1, q1), (p2, q2) in (ipairs if big else [ipairs[(2 * j) % 5], ipairs[(2 * j + 1) % 5]]):
+                b1 = dict(b)
+                b1.update({"printitn": p1, "printinner": q1})
+                t = dict(b)
+                t.update({"printitn": p2, "printinner": q2})
+                cases.append(_mk("print", alg, b1, t, extra={"zero_init": True, "printinner": True}))
     return cases
 
 
@@ -782,7 +846,24 @@ def _trig_pqnr_tie(c):
     return a["pair"] == "repr" and a["alg"] == "cp_apr_pqnr" and (o["maxiters"] >= 2 or o["maxinneriters"] >= 2)
 
 
-TRIGGERS = {"pqnr_tie_regime": _trig_pqnr_tie}
+def _prints_at(p, k):
+    return p > 0 and k % p == 0
+
+
+def _trig_pqnr_print(c):
+    """wave 4 (finding C18-PQNR-PRINT): PQNR print pairs in which some outer iteration that is FOLLOWED by another one (k <= maxiters - 2)
+    is printed under one setting and silent under the other. The status print of tt_cp_apr_pqnr evaluates tt_loglikelihood, which
+    normalises the running model IN PLACE (C05-N11): mathematically invisible, a 1e-16 perturbation in floats, which PQNR's next sweep
+    amplifies (mechanism of C18-PQNR-TIE) - measured 2.4e-8 relative in the returned model. printinneritn plays no role."""
+    a = c.args
+    if a["pair"] != "print" or a["alg"] != "cp_apr_pqnr":
+        return False
+    m = a["base"]["opts"]["maxiters"]
+    p1, p2 = int(a["base"].get("printitn", 0)), int(a["trans"].get("printitn", 0))
+    return any(_prints_at(p1, k) != _prints_at(p2, k) for k in range(max(0, m - 1)))
+
+
+TRIGGERS = {"pqnr_tie_regime": _trig_pqnr_tie, "pqnr_print_regime": _trig_pqnr_print}
 
 
 def _replay(base, order):
@@ -799,4 +880,15 @@ def _wit_tie():
     return _replay(base, "reversed")
 
 
-WITNESSES = {"C18-PQNR-TIE": _wit_tie}
+def _wit_print():
+    base = {"alg": "cp_apr_pqnr", "shape": [4, 3, 3], "sparse": False, "printitn": 0, "seed": None,
+            "init": {"den": 8, "factors": [[[1, 0], [5, 4], [0, 6], [5, 4]], [[8, 1], [7, 5], [1, 1]], [[0, 2], [5, 0], [1, 3]]]},
+            "data": [6, 6, 13, 15, 9, 3, 6, 10, 10, 12, 33, 0, 20, 0, 18, 0, 27, 10, 19, 27, 27, 0, 0, 45, 18, 9, 0, 21, 27, 10, 0, 28, 27, 12,
+                     29, 36], "rank": 2, "opts": {"maxiters": 2, "stoptol": 1e-06, "maxinneriters": 2, "precompinds": True}}
+    t = dict(base)
+    t["printitn"] = 1
+    c = _mk("print", "cp_apr_pqnr", base, t)
+    return oracle(c, run_impl(c))
+
+
+WITNESSES = {"C18-PQNR-TIE": _wit_tie, "C18-PQNR-PRINT": _wit_print}
